@@ -29,8 +29,10 @@ TEXT = {
  "C03": ("whole-library simulation (library built at -O2 and at -O0) of probe threads that call every kind of switching API through an assembly stub loading per-(thread,operation) patterns into rbx, rbp, r12-r15 and a stack array, entered through both creation paths and migrating between workers under the seeded scheduler; oracle = bit-exact registers and stack contents after every operation, 16-byte aligned frame asserted inside every hook (hooks execute in all context-switch callbacks, thread entry paths and the scheduler), aligned SSE store at thread entry", "5.C03"),
  "C18": ("serial deterministic simulation of multi-worker executions for the DAG Recorder: generated well-nested task programs run on a virtual work-stealing scheduler with a virtual clock, each execution recorded several times with identical timing under different contraction options (never / by span / uncollapse_min / by node count / towards a target size); oracle = work, critical path, interval counts and edge counts by kind computed independently from the generated program and from the per-interval user hooks, compared with GS.root->info, with the .stat file, with the totals of the dumped DAG (materialised edges + logical counts) and across all option settings; T_inf <= T_1", "5.C18"),
  "C19": ("same simulated executions: dr_dump -> dr_read_dag -> re-dump and text conversion must be identical; an independent structural validator checks child/subgraph offsets, edge endpoints, edge grouping/sorting and edge ranges, reachability of every leaf; a chronological replay must start and end every leaf once and finish with nothing running or ready; dr_copy_pi_dag (shrink) under seeded targets must preserve the totals and stay well formed; 1..50 distinct source-file names", "5.C19"),
+ "C16": ("differential deterministic simulation: one pthread-only interpreter, linked with the library's own @myth-ld.opts against an LD-flavour build of the library with hooks on, executes generated determinate programs over the supported subset under seeded schedules; the expected output of each program comes from the same binary run in a fresh process on the system pthreads (MYTH_WRAP_PTHREAD=0); oracle = identical output incl. every return code, no hang", "5.C16"),
 }
 NOTE = {
+ "C16": "link-time wrapping is explored under the simulator; preloading (dl) only by a natural-timing smoke; the reference executions use the OS scheduler but decide nothing by themselves",
  "C18": "the recorder, not MassiveThreads, is the system under test; the tasking runtime is simulated; PAPI counters off",
  "C19": "byte comparison ignores the two in-memory pointers of the string-table header that the writer stores and the reader overwrites; no I/O fault injection",
  "C03": "x86-64 inline-assembly context switch only; MXCSR/x87 control words are not saved by the library (MYTH_SAVE_FPCSR 0) and are not checked; the red-zone skip is internal to the library frame at the asm statement",
